@@ -220,6 +220,11 @@ func (w *wbuild) Drive(s *simrt.Sched, out *RunResult) {
 	u := genUniverse(c, w.g)
 	cs := &wbCase{Mode: w.mode, Features: feats, Universe: u.Clone()}
 	out.Decoded = cs
+	if w.mode == "remote" {
+		w.U = u
+		w.driveRemote(s, out, u, cs, feats)
+		return
+	}
 	m := w.newMachine("A")
 	w.U, w.M = u, m
 	w.syncWorkspace(m, u)
